@@ -111,7 +111,7 @@ package shp
 //@   mode fp
 //@   opt trustpre=geom
 //@   ensures [type] typeof(result) == *shp.Polygon
-//@   ensures [single_ring] len(g) == 1 ==> result.(*shp.Polygon) != nil && len(result.(*shp.Polygon).Points) >= len(g[0]) && (forall k int :: 0 <= k && k < len(g[0]) ==> samePt(g[0][k], result.(*shp.Polygon).Points[k]))
+//@   ensures [single_ring] len(g) == 1 ==> result.(*shp.Polygon) != nil && len(result.(*shp.Polygon).Points) >= len(g[0]) && (forall k int :: 0 <= k && k < len(g[0]) ==> biteq(result.(*shp.Polygon).Points[k].X, g[0][k].X) && biteq(result.(*shp.Polygon).Points[k].Y, g[0][k].Y))
 //@     using mention(ringCopied(parts[0], g[0]))
 //@   loop 1 `for i, r := range g`
 //@     invariant [shape] fresh(parts) && len(parts) == len(g) && #1 <= len(g)
